@@ -2,7 +2,7 @@ import Verif
 /-!
 # Driver: reads `cfg` / `ev` / `end` lines on stdin, prints one verdict line per script and check
 -/
-open Verif Verif.Proto Verif.Check
+open Verif Verif.Proto Verif.Check Verif.Accept Verif.Twin
 
 structure Script where
   idx : Nat := 0
@@ -15,10 +15,27 @@ def finish (s : Script) : IO Unit := do
   match s.bad, s.cfg with
   | some b, _ => IO.println s!"S {s.idx} BAD {b}"
   | none, none => IO.println s!"S {s.idx} BAD no-cfg"
-  | none, some (cfg, nkeys, _mode) =>
-    match l1 cfg nkeys s.evs.toList with
-    | none => IO.println s!"S {s.idx} L1 OK n={s.evs.size}"
+  | none, some (cfg, nkeys, mode) =>
+    let evs := s.evs.toList
+    match l1 cfg nkeys evs with
+    | none => IO.println s!"S {s.idx} L1 OK n={evs.length}"
     | some d => IO.println s!"S {s.idx} L1 DIFF {d.show}"
+    for inst in [0, 1] do
+      let ie := evs.filter (·.inst == inst)
+      if !ie.isEmpty then
+        match accept cfg nkeys ie with
+        | (none, mx) => IO.println s!"S {s.idx} ACC OK inst={inst} n={ie.length} maxcands={mx}"
+        | (some f, _) =>
+          IO.println s!"S {s.idx} ACC FAIL inst={inst} ev={f.ev} props={",".intercalate f.props} {f.detail}"
+    let tw : Option (String × Verdict) :=
+      if mode == "c18" then some ("C18", c18 evs)
+      else if mode == "c19" then some ("C19", c19 cfg.kind evs)
+      else if mode == "c20" then some ("C20", c20 evs)
+      else none
+    match tw with
+    | some (p, .ok n) => IO.println s!"S {s.idx} TWIN {p} OK n={n}"
+    | some (p, .fail ev dt) => IO.println s!"S {s.idx} TWIN {p} FAIL ev={ev} {dt}"
+    | none => pure ()
     match s.live with
     | some (l, m) => if l ≠ 0 || m < 0 then IO.println s!"S {s.idx} LIVE FAIL live={l} min={m}" else pure ()
     | none => pure ()
